@@ -61,6 +61,10 @@ class Impl:
     def operand(self, tok):
         if tok.startswith("n:"):
             return num(tok[2:])
+        if tok.startswith("I:"):
+            return np.int64(int(tok[2:]))
+        if tok.startswith("F:"):
+            return np.float32(num(tok[2:]))
         return self.get(tok, FlodymArray)
 
     def dimkey(self, tok):
@@ -157,6 +161,15 @@ class Impl:
             return "ok"
         if op == "dset":
             return self.put_dset(t[1], DimensionSet(dim_list=[self.get(x, Dimension) for x in t[2:]]))
+        if op == "sarr":
+            from flodym import Flow, Parameter, Process, StockArray
+            dims = self.get(t[3], DimensionSet)
+            vals = np.array([num(v) for v in t[5:]], dtype=float).reshape(shape(t[4]))
+            if t[1] == "flow":
+                a = Flow(dims=dims, values=vals, from_process=Process(name="sysenv", id=0), to_process=Process(name="use", id=1))
+            else:
+                a = {"param": Parameter, "stock": StockArray}[t[1]](dims=dims, values=vals)
+            return self.put_arr(t[2], a)
         if op == "iarr":
             dims = self.get(t[2], DimensionSet)
             vals = np.array([int(num(v)) for v in t[4:]], dtype=int).reshape(shape(t[3]))
